@@ -350,8 +350,9 @@ pub fn expected_scene(p: &Program) -> m::Scene {
         match op {
             Op::Ext(pf, u) => s.extensions.push((pf.clone(), u.clone())),
             Op::ExtTry(pf, u) => {
-                // reference model: a namespace prefix can be registered once
-                if !s.extensions.iter().any(|(p, _)| p == pf) {
+                // reference model: a namespace prefix can be registered once, and only with a
+                // non-empty URL
+                if !u.is_empty() && !s.extensions.iter().any(|(p, _)| p == pf) {
                     s.extensions.push((pf.clone(), u.clone()));
                 }
             }
